@@ -2,12 +2,33 @@ package gosim
 
 import (
 	"errors"
+	"fmt"
 	"io"
+	"io/fs"
 	"unicode/utf8"
 )
 
 // ErrInjected is the read/write failure the simulator injects.
 var ErrInjected = errors.New("gosim: injected I/O failure")
+
+// Other shapes a reader failure can legally have. io documents that an error
+// wrapping io.EOF is not io.EOF ("Read must return EOF itself, not an error
+// wrapping EOF"), and io.ErrUnexpectedEOF is an ordinary error.
+var (
+	ErrInjectedWrapsEOF = &fs.PathError{Op: "read", Path: "gosim", Err: io.EOF}
+	ErrInjectedUnexpEOF = fmt.Errorf("gosim: injected failure: %w", io.ErrUnexpectedEOF)
+)
+
+// InjectedErr returns the error value a reader plan injects.
+func InjectedErr(kind string) error {
+	switch kind {
+	case "wraps-eof":
+		return ErrInjectedWrapsEOF
+	case "unexpected-eof":
+		return ErrInjectedUnexpEOF
+	}
+	return ErrInjected
+}
 
 // ReaderPlan is the explicit, replayable configuration of a simulated source.
 type ReaderPlan struct {
@@ -17,7 +38,9 @@ type ReaderPlan struct {
 	Unread    string `json:"unread,omitempty"`     // scanner: "strict" (default) | "multi"
 	Chunk     int    `json:"chunk,omitempty"`      // reader: max bytes per Read (0: unlimited); -1: seeded random sizes
 	ChunkSeed uint64 `json:"chunk_seed,omitempty"`
-	DataErr   bool   `json:"data_err,omitempty"` // reader: deliver the bytes before the fault together with the error
+	DataErr   bool   `json:"data_err,omitempty"`   // reader: deliver the bytes before the fault together with the error
+	ErrKind   string `json:"err_kind,omitempty"`   // "" plain error | "wraps-eof" | "unexpected-eof"
+	FaultCall int    `json:"fault_call,omitempty"` // scanner: fail the n-th ReadRune call (1-based; persistent: from that call on, transient: that call only), whatever the offset — e.g. the re-read after an UnreadRune
 }
 
 // SimReader is an io.RuneScanner over a fixed text with fault injection.
@@ -30,6 +53,7 @@ type SimReader struct {
 	prev              int // byte offset before the last successful ReadRune; -1 if UnreadRune is not allowed
 	stack             []int
 	Ops               int
+	Reads             int // ReadRune calls so far
 	Budget            int
 	Fired             int  // injected failures actually delivered
 	FiredRet          bool // an injected failure was delivered before the call returned
@@ -67,6 +91,15 @@ func (r *SimReader) ReadRune() (rune, int, error) {
 		r.prev = -1
 		return 0, 0, io.EOF
 	}
+	r.Reads++
+	if r.Plan.FaultCall > 0 && (r.Reads == r.Plan.FaultCall || r.Reads > r.Plan.FaultCall && r.Plan.FaultKind != "transient") {
+		r.prev = -1
+		r.Fired++
+		if after := r.S.noteIO(EvRead, "ReadRune!err(call)", r.pos, r.Reads); !after {
+			r.FiredRet = true
+		}
+		return 0, 0, InjectedErr(r.Plan.ErrKind)
+	}
 	if r.Plan.FaultAt >= 0 && r.pos >= r.Plan.FaultAt {
 		fire := false
 		switch r.Plan.FaultKind {
@@ -85,7 +118,7 @@ func (r *SimReader) ReadRune() (rune, int, error) {
 			if !after {
 				r.FiredRet = true
 			}
-			return 0, 0, ErrInjected
+			return 0, 0, InjectedErr(r.Plan.ErrKind)
 		}
 	}
 	if r.pos >= len(r.Src) {
@@ -206,7 +239,7 @@ func (r *SimByteReader) Read(p []byte) (int, error) {
 		if !after {
 			r.FiredRet = true
 		}
-		return 0, ErrInjected
+		return 0, InjectedErr(r.Plan.ErrKind)
 	}
 	if r.pos >= len(r.Src) {
 		r.EOFs++
@@ -234,7 +267,7 @@ func (r *SimByteReader) Read(p []byte) (int, error) {
 		if !after {
 			r.FiredRet = true
 		}
-		return n, ErrInjected
+		return n, InjectedErr(r.Plan.ErrKind)
 	}
 	r.S.noteIO(EvRead, "Read", r.pos, n)
 	return n, nil
